@@ -167,7 +167,7 @@ PROPS["C05"] = {
 }
 
 PROPS["C16"] = {
-    "lean": ["WsVerif.Props.C16", "WsVerif.Props.C16Discard", "WsVerif.Props.C16DiscardMsg", "WsVerif.Bridge.C04"],
+    "lean": ["WsVerif.Props.C16", "WsVerif.Props.C16Discard", "WsVerif.Props.C16DiscardMsg", "WsVerif.Props.C16DiscardCut", "WsVerif.Bridge.C04"],
     "rule": "Reader: streams of 1-3 messages (with a 10-byte ping between fragments) cut at EVERY byte offset, ending in EOF and in a transport "
             "error, under chunkings {whole,1,5}, through ReadMessage, the ReadData family and Reader scripts. Writer: random op sequences "
             "with the destination failing at each write index 0..13, followed by Flush/Write/Flush/FlushFragment/WriteThrough probes; "
